@@ -22,6 +22,7 @@ import (
 	"net/url"
 	"sort"
 	"strings"
+	"sync"
 	"testing"
 	"time"
 
@@ -237,6 +238,53 @@ func TestC19(t *testing.T) {
 			return netip.Addr{}, ""
 		}
 
+		// A burst: dozens of queries whose handling overlaps in time (each is held
+		// where the handler asks for the configuration, then all go on). Every one
+		// of them must get its reply.
+		if c.Chance("burst", 1, 25) {
+			nb := c.Int("burst.n", 20, 60)
+			node.Gate.HoldAll("instance.Config")
+			var wg sync.WaitGroup
+			writers := make([]*c19Writer, nb)
+			names := make([]string, nb)
+			for i := 0; i < nb; i++ {
+				lbl := c19Labels[c.Pick("burst.label", len(c19Labels))]
+				names[i] = lbl + ".myco."
+				writers[i] = &c19Writer{}
+				req := new(mdns.Msg)
+				req.SetQuestion(names[i], mdns.TypeAAAA)
+				wg.Add(1)
+				go func(w *c19Writer, req *mdns.Msg) {
+					defer wg.Done()
+					srv.ServeDNS(w, req)
+				}(writers[i], req)
+			}
+			for waited, stable, last := 0, 0, -1; waited < 200 && node.Gate.Waiting() < nb && stable < 10; waited++ {
+				time.Sleep(time.Millisecond)
+				if now := node.Gate.Waiting(); now == last {
+					stable++ // (names answered before the configuration is asked never wait)
+				} else {
+					stable, last = 0, now
+				}
+			}
+			held := node.Gate.Waiting()
+			node.Gate.Release()
+			wg.Wait()
+			for i, w := range writers {
+				if len(w.msgs) != 1 {
+					c.Fatalf("burst of %d overlapping queries (%d held at once): query %d for %q got %d replies, want exactly one", nb, held, i, names[i], len(w.msgs))
+				}
+				refIP, refSrc := reference(strings.TrimSuffix(names[i], "."))
+				resolving := refSrc == "internal" || refSrc == "resolve-config" || refSrc == "friend" || refSrc == "mapping"
+				if resolving != (w.msgs[0].Rcode == mdns.RcodeSuccess) {
+					c.Fatalf("burst: query for %q got rcode %d, reference source %q (%s)", names[i], w.msgs[0].Rcode, refSrc, refIP)
+				}
+			}
+			if up := alerts.Export(); len(up.Alerts) > 0 {
+				c.Fatalf("burst of queries crashed the handler: %s", up.Alerts[0].Message)
+			}
+			c.Class("burst-of-overlapping-queries")
+		}
 		nq := c.Int("queries", 1, 40)
 		asked := map[string][]string{} // normalised name -> spellings queried so far
 		for qi := 0; qi < nq; qi++ {
